@@ -39,6 +39,14 @@ func linksStr(m map[string][2][]int) string {
 
 func c04(c *Ctx) {
 	names := []string{"privmsg", "PRIVMSG", "PrivMsg", "join", "001", "x", "JOIN"}
+	// every letter in both cases, the characters around the letter ranges, names beyond any plausible short-name fast path
+	alpha := []string{"abcdefghijklm", "ABCDEFGHIJKLM", "nopqrstuvwxyz", "NOPQRSTUVWXYZ", "NoPqRsTuVwXyZ", "zap", "ZAP", "Zap", "quiz", "QUIZ", "@[`{", "a[z{", "A[Z{",
+		"averyveryverylongeventname", "AVERYVERYVERYLONGEVENTNAME", "AveryVeryVeryLongEventName", "sixteen-bytes-zz", "SIXTEEN-BYTES-ZZ", "seventeen-bytes-zz", "SEVENTEEN-BYTES-ZZ"}
+	if c.R.P(1, 2) {
+		names = append(names, alpha...)
+	} else {
+		names = append(names, alpha[c.R.N(len(alpha))], alpha[c.R.N(len(alpha))], alpha[c.R.N(len(alpha))])
+	}
 	var cases []Case
 	for i := 0; i < c.Pick(1500, 20000); i++ {
 		v := client.VerifNewHSet()
